@@ -44,15 +44,15 @@ def oref(o):
     return d
 
 
-def convert_for(kind):
+def convert_for(kind, shift=0):
     def conv(raw, sid):
-        return convert(raw, sid, kind)
+        return convert(raw, sid, kind, shift)
     return conv
 
 
-def convert(raw, sid, kind):
+def convert(raw, sid, kind, shift=0):
     n = int(sid.rsplit("-", 1)[1])
-    variant = (n + (3 if kind == "decorator" else 0)) % 12
+    variant = (n + (3 if kind == "decorator" else 0) + shift) % 12
     chg = variant % 3            # how the related objects change: touch / relabel / delete
     alt = (variant // 3) % 2     # the hook answers generation 2 with another rule set
     two = (variant // 6) % 2     # a second parent with the same rules
@@ -108,7 +108,7 @@ def convert(raw, sid, kind):
     sched += syncs()
     for o in (WORLD[1], WORLD[3], WORLD[0]):
         sched.append(dict(oref(o), s="ev", op="touch"))
-    return {"id": "%s-%s" % (sid, kind[:3]), "fam": "customize", "cfg": cfg, "objs": objs, "hook": hook, "sched": sched,
+    return {"id": "%s-%s%d" % (sid, kind[:3], shift), "fam": "customize", "cfg": cfg, "objs": objs, "hook": hook, "sched": sched,
             "expect": {"model": {"err": bool(raw["err"]), "mixed": bool(raw["mixed"]), "foreign": bool(raw["foreign"]),
                                  "selected": raw["selected"] if isinstance(raw["selected"], list) else []}},
             "ops": ["chg%d" % chg, "alt%d" % alt, "two%d" % two], "err": bool(raw["err"]), "nrules": len(rules)}
